@@ -137,8 +137,14 @@ def gen_variant(rng, case, vid, inc, extents):
     n = len(case["steps"])
     corpus = "corpus" in case["world"]["spec"]
     modes = [("u2mem", 18), ("u2lazy", 25), ("u2eager", 8), ("dcmem", 18), ("dcdisk", 10), ("u2disk", 12)]
-    mat = {"mode": gen07._wchoice(rng, modes),
-           "order_key": "v%d" % rng.randrange(10 ** 6) if rng.random() < 0.7 else None,
+    # stratify over the incarnations so that every case meets the library, the
+    # memory-vs-disk and the insertion-order dimensions at least once
+    mode = gen07._wchoice(rng, modes)
+    forced = {0: ("u2lazy", "u2disk", "u2eager"), 1: ("dcmem", "dcdisk"), 2: ("u2mem",)}.get(inc % 5)
+    if forced:
+        mode = rng.choice(forced)
+    mat = {"mode": mode,
+           "order_key": "v%d" % rng.randrange(10 ** 6) if (rng.random() < 0.7 or inc % 5 == 2) else None,
            "perm_key": "l%d" % rng.randrange(10 ** 6) if rng.random() < 0.7 else None,
            "ds_names": True}
     env = {"tz": rng.choice(gen07.TZS),
